@@ -323,6 +323,38 @@ func decodeBattery() string {
 	return canon(map[string]interface{}(m)) + fmt.Sprint(err) + canon(map[string]interface{}(ms)) + fmt.Sprint(err2)
 }
 
+// queries depend on no option (SetArraySize is documented as an allocation hint only): a result gathered from several
+// lists, one of which straddles the 32 / 40 / 64 boundaries, must be the same in every option state (seed C18-6)
+var c18QueryMap = func() mxj.Map {
+	var secs []interface{}
+	for i := 0; i < 3; i++ {
+		var items []interface{}
+		for j := 0; j < 15; j++ {
+			items = append(items, fmt.Sprintf("v%d.%d", i, j))
+		}
+		secs = append(secs, map[string]interface{}{"item": items, "n": float64(i)})
+	}
+	var long []interface{}
+	for j := 0; j < 70; j++ {
+		long = append(long, map[string]interface{}{"k": float64(j)})
+	}
+	return mxj.Map{"doc": map[string]interface{}{"section": secs, "long": long}}
+}()
+
+func queryBattery() string {
+	var sb strings.Builder
+	for _, p := range []string{"doc.section.item", "doc.*.item", "doc.long.k", "doc.section[1].item", "*.*.*"} {
+		v, err := c18QueryMap.ValuesForPath(p)
+		sb.WriteString(fmt.Sprintf("%s:%d:%s:%v;", p, len(v), canonMultiset(v), err))
+	}
+	for _, k := range []string{"item", "k", "*"} {
+		v, err := c18QueryMap.ValuesForKey(k)
+		sb.WriteString(fmt.Sprintf("%s:%d:%s:%v;", k, len(v), canonMultiset(v), err))
+	}
+	// (LeafPaths is not part of the battery: it documents its dependence on LeafUseDotNotation and the attribute prefix)
+	return sb.String()
+}
+
 type c18Case struct {
 	History []optCall `json:"history"`
 }
@@ -357,7 +389,7 @@ func runC18(cfg runCfg) error {
 			"non-trivial = at least 3 calls that change the state; distinct by history hash")
 	init0 := optSnapshot()
 	fresh := battery()
-	freshSeqJson, freshUncast, freshDecode := seqJsonBattery(), uncastDecodeBattery(), decodeBattery()
+	freshSeqJson, freshUncast, freshDecode, freshQuery := seqJsonBattery(), uncastDecodeBattery(), decodeBattery(), queryBattery()
 	viol := func(key, what string, c c18Case, got, want string) {
 		run.violation(Violation{Key: key, What: what, Input: c, Got: got, Want: want})
 	}
@@ -451,6 +483,12 @@ func runC18(cfg runCfg) error {
 			prev = cur
 		}
 		// ---- non-interference on the state the history reached (before restoring)
+		if !panicked && r.chance(0.3) {
+			if got := queryBattery(); got != freshQuery {
+				viol("interference:options->queries", "an option state (array size, prefixes, switches) changed the result of path / key / leaf queries", c, got, freshQuery)
+			}
+			run.sum.OracleEvals++
+		}
 		if !panicked {
 			st := optSnapshot()
 			// attribute prefix and case folding do not affect the sequence codec or JSON: neutralise everything else
